@@ -22,7 +22,7 @@ out = ["# Independently seeded changes", "",
        "check). None of them is committed in /repo. `sensitivity.sh` re-runs all of them (exit 1 expected from the check).",
        "",
        "Rounds: r1 = first round; r2 = second round, agents were told the two r1 changes and asked for rarer triggers;",
-       "r3 = third round, told the four earlier ones; r4 / r5 = fourth / fifth round, told the six / eight earlier ones; r6 = sixth round, three changes per property (a, b, c), told the ten earlier ones and asked for changes that need a long history, an unusual but legal configuration, a boundary, or two sites that interact; r7 / r8 / r9 = seventh to ninth round, two changes each, told the thirteen / fifteen / seventeen earlier ones. `first run` is the result of the quick check as it was when the",
+       "r3 = third round, told the four earlier ones; r4 / r5 = fourth / fifth round, told the six / eight earlier ones; r6 = sixth round, three changes per property (a, b, c), told the ten earlier ones and asked for changes that need a long history, an unusual but legal configuration, a boundary, or two sites that interact; r7 / r8 / r9 = seventh to ninth round, two changes each, told the thirteen / fifteen / seventeen earlier ones; r10 = tenth round, one change per property, told the nineteen (eighteen) earlier ones and asked for an error path, a second use of an object, an unusual configuration or two sites that only fail together. `first run` is the result of the quick check as it was when the",
        "change came in; `now` the result with the committed machinery; `strengthened with` says what was added to the",
        "check (generator dimension or oracle clause, never a special case for the change) when the first run missed it.",
        "",
